@@ -19,13 +19,15 @@ SubSeqIdx(s, I) == LET RECURSIVE go(_)
                        go(i) == IF i > Len(s) THEN <<>> ELSE (IF i \in I THEN <<s[i]>> ELSE <<>>) \o go(i + 1)
                    IN  go(1)
 Attrs(r) == <<r.scaled, r.rng, r.factor>>
+CountP(r, x, lab) == Cardinality({i \in 1..Len(r.xs) : r.xs[i] = x /\ r.ls[i] = lab})
 Col(r, d) == {r.xs[i][d] : i \in 1..Len(r.xs)}
 AsQ(x) == Norm(x[1], x[2])
 
 (* a register the operation does not work on must still hold the same labelled samples with the same attributes (a silent    *)
 (* re-ordering through arrays shared with another data set is tolerated by the property and reported as drift only)        *)
 Same(a, b) == BagEq(Pairs(a), Pairs(b)) /\ Attrs(a) = Attrs(b)
-Untouched(e) == CASE e.op \in {"scale_range", "scale_factor", "shift", "revert", "concat", "shuffle", "move_boundaries"} -> {2, 3}
+Untouched(e) == CASE e.op \in {"scale_range", "scale_factor", "shift", "revert", "concat", "shuffle", "move_boundaries", "remove_labels"} -> {2, 3}
+                  [] e.op = "one_vs_others" -> {1, 2, 3}
                   [] e.op \in {"split_pieces", "split_without_labels", "split_labels"} -> {1}
                   [] e.op = "remove" -> {3}
                   [] e.op = "copy" -> {1, 3}
@@ -67,6 +69,31 @@ Clauses0(e, R, R2, B) ==     \* e: event, R: registers before, R2: registers aft
            [ P_NoException |-> ~e.raised,
              P_PermutationOnly |-> BagEq(Pairs(n1), Pairs(r1)) /\ Attrs(n1) = Attrs(r1),
              P_OthersUntouched |-> Same(R2[2], R[2]) /\ Same(R2[3], R[3]) ]
+      [] e.op = "remove_labels" ->
+           \* remove_labels(p): exactly e.args.k = round(p * #labelled) labelled samples lose their label, every other label stays on its sample,
+           \* no sample is lost or invented (the samples may be re-ordered), the scaling attributes stay
+           [ P_NoException |-> ~e.raised,
+             P_RemoveLabelsKeepsSamples |-> e.raised \/
+                  /\ BagEq(n1.xs, r1.xs)
+                  /\ \A x \in SetOf(r1.xs) : \A lab \in SetOf(r1.ls) \cup SetOf(n1.ls) :
+                         lab # -1 => CountP(n1, x, lab) <= CountP(r1, x, lab)
+                  /\ Cardinality({i \in 1..Len(n1.ls) : n1.ls[i] = -1}) = Cardinality({i \in 1..Len(r1.ls) : r1.ls[i] = -1}) + e.args.k,
+             P_AttributesCarried |-> e.raised \/ Attrs(n1) = Attrs(r1),
+             P_OthersUntouched |-> Same(R2[2], R[2]) /\ Same(R2[3], R[3]) ]
+      [] e.op = "one_vs_others" ->
+           \* split_one_vs_others(): one data set per class holding ALL samples, label 1 on exactly the samples of the class, the weighted
+           \* negative label max(-1, -(n_class / n_others)) on all others; e.parts = the returned data sets
+           [ P_NoException |-> ~e.raised,
+             P_OneVsOthers |-> e.raised \/
+                  /\ {p.cls : p \in SetOf(e.parts)} = SetOf(r1.ls) /\ Len(e.parts) = Cardinality(SetOf(r1.ls))
+                  /\ \A p \in SetOf(e.parts) :
+                        LET nc == Cardinality({i \in 1..Len(r1.ls) : r1.ls[i] = p.cls})
+                            no == Len(r1.ls) - nc
+                        IN  /\ BagEq([i \in 1..Len(p.xs) |-> <<p.xs[i], p.one[i]>>], [i \in 1..Len(r1.xs) |-> <<r1.xs[i], r1.ls[i] = p.cls>>])
+                            /\ \A i \in 1..Len(p.xs) : (~p.one[i] /\ no > 0) =>
+                                   AsQ(p.neg[i]) = (IF nc >= no THEN Q(-1) ELSE Norm(-nc, no)),
+             P_AttributesCarried |-> e.raised \/ \A p \in SetOf(e.parts) : <<p.scaled, p.rng, p.factor>> = Attrs(r1),
+             P_OthersUntouched |-> Same(n1, r1) /\ Same(R2[2], R[2]) /\ Same(R2[3], R[3]) ]
       [] e.op = "swap" -> [ P_NoException |-> R2 = <<R[2], R[1], R[3]>> ]
       [] e.op = "copy" ->        \* register 2 := copy() of register 1 (the library's own copy): an independent data set with the same content
            [ P_NoException |-> ~e.raised,
@@ -101,6 +128,7 @@ RawNextBase(e, R, B) ==
       [] e.op = "swap" -> <<B[2], B[1], B[3]>>
       [] e.op = "copy" -> IF e.raised THEN B ELSE <<B[1], B[1], B[3]>>
       [] e.op \in {"shuffle", "move_boundaries"} -> <<[B[1] EXCEPT !.al = FALSE], B[2], B[3]>>
+      [] e.op = "remove_labels" -> <<Unknown, B[2], B[3]>>      \* the labels of the base are no longer those of the register
       [] OTHER -> B
 (* an unscaled register is its own base *)
 NextBase(e, R, R2, B) ==
